@@ -356,10 +356,18 @@ class SuitCommand(SuitUnion):
     _metadata = Metadata(children=[SuitCondition, SuitDirective])
 
 
+class SuitRawBstr(SuitBstr):
+    """Representation of raw bytes rendered as {"raw": <hex>}, the form the description language accepts for them."""
+
+    def to_obj(self) -> dict:
+        """Dump SUIT representation to object."""
+        return {"raw": super().to_obj()}
+
+
 class SuitComponentIdentifierPart(SuitUnion):
     """Abstract element to define possible sub-elements."""
 
-    _metadata = Metadata(children=[SuitUUID, SuitBchar, cbstr(SuitTstr), cbstr(SuitInt), SuitBstr])
+    _metadata = Metadata(children=[SuitUUID, SuitBchar, cbstr(SuitTstr), cbstr(SuitInt), SuitRawBstr])
 
 
 class SuitComponentIdentifier(SuitList):
